@@ -788,7 +788,9 @@ func makeUpdateStrategyMap(resources *dynamicdiscovery.ResourceMap, dc *v1alpha1
 func parentQueueKey(obj interface{}) (string, error) {
 	switch o := obj.(type) {
 	case cache.DeletedFinalStateUnknown:
-		return o.Key, nil
+		// The tombstone's own key has the form namespace/name, which splitParentQueueKey
+		// cannot parse; build the key from the object the tombstone carries.
+		return parentQueueKey(o.Obj)
 	case cache.ExplicitKey:
 		return string(o), nil
 	case *unstructured.Unstructured:
